@@ -50,6 +50,59 @@ def narrow_arith(ctx, prog, seen, rule="R14.2", label=""):
     return n, bad
 
 
+def _param_of(body, op, depth=0):
+    """index of the parameter an operand is a copy / reborrow of, or None"""
+    if op.get("k") not in ("copy", "move") or depth > 8:
+        return None
+    pl = op["place"]
+    if any(pe.get("k") != "deref" for pe in pl.get("p", [])):
+        return None
+    l = pl["l"]
+    if 1 <= l <= body.arg_count:
+        return l
+    defs = [st["rv"] for blk in body.blocks for st in blk["stmts"] if st["k"] == "assign" and st["place"]["l"] == l and not st["place"]["p"]]
+    if len(defs) != 1:
+        return None
+    rv = defs[0]
+    if rv["k"] in ("use", "cast"):
+        return _param_of(body, rv["op"], depth + 1)
+    if rv["k"] == "ref" and all(pe.get("k") == "deref" for pe in rv["place"].get("p", [])):
+        return _param_of(body, {"k": "copy", "place": {"l": rv["place"]["l"], "p": []}}, depth + 1)
+    return None
+
+
+def _extent_known_at_callers(prog, b, op):
+    """for a non-public helper that is not in anchors/known_functions.json: the slice comes straight from a parameter and
+    every call site in the workspace passes a slice whose exact length the prover knows"""
+    from ..absint import _known_functions
+    known = _known_functions()
+    if not known or b.path in known or b.is_public or b.kind not in ("Fn", "AssocFn") or P._fn_value_uses(prog, b.key):
+        return False
+    k = _param_of(b, op)
+    if k is None:
+        return False
+    n = 0
+    for cb in prog.bodies.values():
+        pr = None
+        for cs in cb.calls():
+            if not any(x.key == b.key for x in prog.callees(cs)):
+                continue
+            if cb.blocks[cs.block]["cleanup"] or len(cs.args) < k:
+                return False
+            pr = pr or prover.Prover(cb)
+            pr.at = (cs.block, 10 ** 6)
+            try:
+                ex = pr.exact_len(cs.args[k - 1])
+            except Exception:
+                ex = None
+            finally:
+                pr.at = None
+            if ex is None:
+                return False
+            n += 1
+    return n > 0
+
+
 def check(ctx, env):
     ctx.explanation = (
         "Static: (R14.1) panic-site inventory from MessageEncoder::encode over every attribute encoder (all features): each "
@@ -119,6 +172,8 @@ def check(ctx, env):
                 ex = pr.exact_len(c.args[0])
             finally:
                 pr.at = None
+            if ex is None and _extent_known_at_callers(prog, b, c.args[0]):
+                continue            # a helper split off by a refactoring: every caller passes a slice of known extent
             if ex is None:
                 badw.append((b, c.line, "%s on a slice of unknown extent" % c.callee_path.split("::")[-1]))
     for b, line, why in badw:
